@@ -422,6 +422,7 @@ inline CLib from_model(const model::MLib& m, const Options& opt) {
             if (p.nelem > 1 && p.bend > 0) continue;  // centre lines of the elements taken from the writer's own computation by the scenario
             std::string props = props_str(p.props, mode);
             std::vector<model::Pt> offs = rep_offsets(p.rep);
+            const std::vector<model::Pt> spine = model::centre_line(p);
             int64_t w2 = mode == GDS ? rgrid(2 * p.hw) : 2 * rgrid(p.hw);
             int64_t eu = rgrid(p.eu), ev = rgrid(p.ev);
             // a simple path with several parallel elements is one PATH per element: the centre line displaced
@@ -431,14 +432,14 @@ inline CLib from_model(const model::MLib& m, const Options& opt) {
             int ne = p.nelem < 1 ? 1 : p.nelem;
             for (int k = 0; k < ne; k++) {
                 model::dg_t d = (model::dg_t)(2 * k - (ne - 1)) * p.sep / 2;
-                bool horizontal = p.spine.size() >= 2 && p.spine[0].y == p.spine[1].y;
+                bool horizontal = spine.size() >= 2 && p.spine[0].y == p.spine[1].y;
                 shifts.push_back(ne == 1 ? model::Pt{0, 0} : (horizontal ? model::Pt{0, d} : model::Pt{d, 0}));
             }
             for (auto& sh : shifts) {
                 if (mode == GDS) {
                     for (auto& o : offs) {
                         std::vector<IPt> sp;
-                        for (auto& q : p.spine) sp.push_back(rgrid(model::Pt{q.x + o.x + sh.x, q.y + o.y + sh.y}));
+                        for (auto& q : spine) sp.push_back(rgrid(model::Pt{q.x + o.x + sh.x, q.y + o.y + sh.y}));
                         cc.close_path_vertices += close_pairs(sp);
                         bool ok;
                         std::string line = path_line(mode, p.layer, p.dtype, sp, w2, p.end, eu, ev,
@@ -447,7 +448,7 @@ inline CLib from_model(const model::MLib& m, const Options& opt) {
                     }
                 } else {
                     std::vector<IPt> sp;
-                    for (auto& q : p.spine) sp.push_back(rgrid(model::Pt{q.x + sh.x, q.y + sh.y}));
+                    for (auto& q : spine) sp.push_back(rgrid(model::Pt{q.x + sh.x, q.y + sh.y}));
                     bool ok;
                     std::string line = path_line(mode, p.layer, p.dtype, sp, w2, p.end, eu, ev,
                                                  p.scale_width, rep_grid(p.rep), props, ok);
